@@ -18,6 +18,10 @@ fn first_where(idx: &[Cell], f: impl Fn(usize, &Cell) -> bool) -> Option<usize> 
 pub fn atoms(algo: Algo) -> Vec<Vec<u8>> {
     let g = golden();
     let mut a: Vec<Vec<u8>> = vec![b"a".to_vec()];
+    if !matches!(algo, Algo::Utf16(_) | Algo::SingleByte(_) | Algo::XUserDefined | Algo::Replacement | Algo::Iso2022Jp | Algo::Utf8) {
+        // an ASCII byte that is not a valid trail byte of any two-byte form (below 0x40, not a digit)
+        a.push(b" ".to_vec());
+    }
     match algo {
         Algo::Big5 => {
             let bmp = first_where(&g.big5, |p, c| p > 5000 && matches!(c, Cell::One(x) if *x < 0x10000)).unwrap();
@@ -95,6 +99,7 @@ pub fn atoms(algo: Algo) -> Vec<Vec<u8>> {
             a.push(vec![0x80]);
             a.push(vec![0xFF]);
             a.push(vec![0xA3, 0xA0]);
+            a.push(b"0".to_vec()); // a digit: ASCII, but a four-byte second position after a lead
         }
         Algo::Iso2022Jp => {
             for e in gen::ISO2022JP_ESCAPES {
